@@ -61,10 +61,79 @@ struct World {
 }
 
 fn build_world(specs: &[ZoneSpec]) -> Result<World, String> {
+    build_world_with(specs, None)
+}
+
+/// Construction paths: the zone built through `FileZoneHandler::try_from_config` and both starts of
+/// `SqliteZoneHandler::try_from_config` (second start: the journal exists), proof kind deserialised as the
+/// configuration file gives it, every other knob non-default, signed the way the binary's `load_keys` does:
+/// the published NSEC chain must be the reference chain and the server's denials must validate end to end.
+const CTOR_CASES: usize = 9;
+
+fn ctor_paths(rt: &tokio::runtime::Runtime, l: &mut Local, only: Option<usize>) {
+    let mut index = 0usize;
+    use vzone::ctor::{self, CtorKnobs, CtorPath};
+    let zones = [
+        ZoneSpec::new("z.", &[("a.z.", Kind::A), ("*.z.", Kind::A)]),
+        ZoneSpec::new("z.", &[("a.z.", Kind::Ns), ("b.z.", Kind::NsDs), ("a.b.z.", Kind::A)]),
+        ZoneSpec::new("z.", &[("a.a.a.z.", Kind::A), ("*.a.z.", Kind::A)]),
+    ];
+    let base = if std::path::Path::new("/dev/shm").is_dir() { std::path::PathBuf::from("/dev/shm") } else { std::env::temp_dir() };
+    let dir = base.join(format!("verif-c08-ctor-{}-{}", std::process::id(), only.map(|i| i.to_string()).unwrap_or_default()));
+    for spec in &zones {
+        for path in [CtorPath::File, CtorPath::SqliteFirst, CtorPath::SqliteSecond] {
+            index += 1;
+            if only.map(|o| o != index - 1).unwrap_or(false) {
+                continue;
+            }
+            let _ = std::fs::remove_dir_all(&dir);
+            if std::fs::create_dir_all(&dir).is_err() {
+                l.outcome("ctor:scratch-dir-unavailable");
+                return;
+            }
+            let case = || json!({"level": "ctor", "zones": [spec.to_json()], "path": path.tag()});
+            let built = vcore::catch(|| ctor::build_via(path, spec, &Signing::Nsec, &CtorKnobs::NON_DEFAULT, &dir, rt));
+            let _ = std::fs::remove_dir_all(&dir);
+            let built = match built {
+                Ok(Ok((b, _))) => b,
+                Ok(Err(e)) => {
+                    l.violation(&format!("ctor:{}:build-failed", path.tag()), &e, case);
+                    continue;
+                }
+                Err(p) => {
+                    l.violation(&format!("panic:{}", vcore::short_loc(&p.loc)), &p.msg, case);
+                    continue;
+                }
+            };
+            l.eval();
+            if built.nsecs().is_empty() || !built.nsec3s().is_empty() {
+                l.violation(&format!("ctor:{}:proof-kind", path.tag()), &format!("configured proof kind nsec: the zone holds {} NSEC and {} NSEC3 records", built.nsecs().len(), built.nsec3s().len()), case);
+                continue;
+            }
+            match build_world_with(std::slice::from_ref(spec), Some(built)) {
+                Err(e) => l.violation(&format!("ctor:{}:build-failed", path.tag()), &e, case),
+                Ok(w) => {
+                    check_chain(&w, l);
+                    l.outcome("ctor:chain-compared");
+                    // the File path signs at the real clock (its provider is fixed): outside the validity window of the virtual clock
+                    if path != CtorPath::File {
+                        completeness(&w, 0, rt, l, None);
+                        l.outcome("ctor:completeness-run");
+                    }
+                }
+            }
+        }
+    }
+}
+
+fn build_world_with(specs: &[ZoneSpec], mut prebuilt: Option<vzone::Built>) -> Result<World, String> {
     let mut zones = vec![];
     let mut nsecs = vec![];
     for (i, s) in specs.iter().enumerate() {
-        let built = vzone::build(s, &Signing::Nsec)?;
+        let built = match prebuilt.take() {
+            Some(b) => b,
+            None => vzone::build(s, &Signing::Nsec)?,
+        };
         let origin = vzone::hname(&s.origin);
         for (owner, n) in built.nsecs() {
             let abs = vzone::ref_nsec(&origin, &owner, &n);
@@ -1023,6 +1092,7 @@ fn main() {
         let rt = vsim::rt();
         let world = build_world(&specs).unwrap_or_else(|e| vcore::machinery_exit(&e));
         ctx.with_local(|l| match case["level"].as_str() {
+            Some("ctor") => ctor_paths(&rt, l, None),
             Some("chain") => check_chain(&world, l),
             Some("completeness") => {
                 let q = case["qname"].as_str().unwrap_or("z.").to_string();
@@ -1092,6 +1162,8 @@ fn main() {
         },
     );
 
+    // construction paths (3 zones x 3 from-config paths)
+    ctx.par_run_init(CTOR_CASES as u64, 1, |_| vsim::rt(), |i, l, rt| ctor_paths(rt, l, Some(i as usize)));
     ctx.with_local(codec_family);
     if WIRE_FAILURES.load(Ordering::Relaxed) > 0 {
         ctx.with_local(|l| {
@@ -1122,6 +1194,8 @@ fn main() {
     need.insert("codec:genuine-nsec-emit:as-reference", "no genuine NSEC was compared with the reference octets");
     need.insert("second-validation:same-verdict", "no server answer was validated a second time");
     need.insert("complete:POSITIVE", "no positive server answer was validated end to end");
+    need.insert("ctor:chain-compared", "no chain of a zone built through a from-config path was compared with the reference chain");
+    need.insert("ctor:completeness-run", "no zone built through a from-config path was validated end to end");
     need.insert("shape:ent-first-descendant-2-below", "no zone had an empty non-terminal whose first descendant is two or more labels below it");
     need.insert("shape:ent-above-ent", "no zone had an empty non-terminal directly above another one");
     need.insert("shape:wildcard-below-ent-chain", "no zone had a wildcard below a chain of two empty non-terminals");
